@@ -502,8 +502,8 @@ class Gen:
         layers[-1].append((fresh, self.r.choice([":", ":", "::"]), False, ("self", key)))
         return ("obj", layers)
 
-    def mutate(self, v):
-        """a value equal to v or differing in one place"""
+    def mutate(self, v, hide=True):
+        """a value equal to v or differing in one place (hide: may change / add a hidden field)"""
         r = self.r
         t = v[0]
         if t == "arr" and v[1] and r.chance(0.8):
@@ -511,7 +511,7 @@ class Gen:
             k = r.below(4)
             if k == 0:
                 return ("arr", v[1][:i] + v[1][i + 1:])
-            return ("arr", [self.mutate(x) if j == i else x for j, x in enumerate(v[1])])
+            return ("arr", [self.mutate(x, hide) if j == i else x for j, x in enumerate(v[1])])
         if t == "obj" and any(v[1]) and r.chance(0.85):
             layers = [list(layer) for layer in v[1]]
             li = r.choice([i for i, l in enumerate(layers) if l])
@@ -520,14 +520,14 @@ class Gen:
             k = r.below(6)
             if k == 0:
                 del layers[li][fi]
-            elif k == 1:
+            elif k == 1 and hide:
                 layers[li][fi] = (name, r.choice([":", "::", ":::"]), plus, body)
             elif k == 2:
                 r.shuffle(layers[li])
             elif k == 3 and body[0] != "self":
-                layers[li][fi] = (name, vis, plus, self.mutate(body))
+                layers[li][fi] = (name, vis, plus, self.mutate(body, hide))
             elif k == 4:
-                layers[li].append((r.choice(["n1", "n2"]), r.choice([":", "::"]), False, self.scalar()))
+                layers[li].append((r.choice(["n1", "n2"]), r.choice([":", "::"]) if hide else ":", False, self.scalar()))
             return ("obj", layers)
         if r.chance(0.5):
             return v
@@ -553,7 +553,11 @@ def enumerate_cases(run):
         for a in args:
             if isinstance(a, tuple) and a and a[0] in ("obj", "arr") and not try_flatten(a):
                 return
-        cases.append(Call(kind, *args, **opt))
+        c = Call(kind, *args, **opt)
+        if kind == "CMergePatch" and any(has_kind(v, "hidden") for v in c.values()) and any(
+                has_kind(v, "bomb") for v in c.values()):
+            return  # the two mergePatch findings are classified on disjoint input classes
+        cases.append(c)
 
     ALLFL = {"hidden", "bomb", "fun", "chain"}
     # ---- fixed part: the probes of the module docstring / anchors
@@ -652,7 +656,7 @@ def enumerate_cases(run):
         t = g.value(3, fl) if r.chance(0.15) else g.obj(3, fl, few=True)
         p = g.value(3, fl) if r.chance(0.12) else g.obj(3, fl, few=True)
         if r.chance(0.25):
-            p = g.mutate(t)
+            p = g.mutate(t, hide="hidden" in fl)
         add("CMergePatch", t, p)
     for i in range(120 * mult):
         fl = [{"empties"}, {"empties", "hidden", "chain"}, {"empties", "fun"}, {"empties", "bomb", "hidden"}][i % 4]
@@ -716,10 +720,12 @@ def search(run, binary):
     old = run.tier
     run.tier = "thorough"
     try:
-        cases = enumerate_cases(run)[:12000]
-        vc = vis_cases(run)
+        cases = enumerate_cases(run)
+        vc = vis_cases(run)[:500]
     finally:
         run.tier = old
+    # bounded (about 5 minutes): every 4th call of the thorough scope, all function kinds kept
+    cases = cases[run.seed % 4::4][:4000]
     f, _ = correspond(run, binary, cases, witnesses=False)
     f2, _ = correspond_visibility(run, binary, vc)
     return f + f2
